@@ -222,12 +222,19 @@ class Crate:
     def ibody(self, path):
         return self.body(path, inline=True)
 
-    def inlined(self, path, depth=3, no_impls_of=("TS",)):
-        """the body at `path` with crate-local helper calls spliced in (see inline_raw); None if there is no such body"""
+    def inlined(self, path, depth=3, no_impls_of=("TS",), siblings=None):
+        """the body at `path` with crate-local helper calls spliced in (see inline_raw); None if there is no such body.
+        `siblings`: functions that share helpers with this one (the methods of one impl): a helper all of whose call sites
+        lie in them is spliced in as well."""
         b = path if isinstance(path, Body) else self.body(path)
         if b is None:
             return None
-        key = (b.path, depth, tuple(no_impls_of))
+        key = (b.path, depth, tuple(no_impls_of), id(siblings) if siblings is not None else None)
+        if key not in self._inl and siblings is not None:
+            own = self.owned_by(set(siblings) | {b.path}, no_impls_of)
+            nb = Body(inline_raw(self, b, depth, no_impls_of, only=own), self.name)
+            nb.plain = b
+            self._inl[key] = nb
         if key not in self._inl:
             # what is spliced in: the functions that exist only as parts of this one (all their call sites lie in it or in
             # such parts).  Functions shared with other callers keep their own identity and stay calls.
@@ -239,10 +246,17 @@ class Crate:
     def owned_by(self, owner, no_impls_of=("TS",)):
         """paths of bodies that only run as part of `owner`: owner itself, its closures, and every function all of whose
         call sites in the crate lie in such bodies (helpers the owner was split into)"""
-        callers = defaultdict(set)
-        for p, qs in self.callgraph(no_impls_of).items():
-            for q in qs:
-                callers[q].add(p)
+        okey = ("own", owner if isinstance(owner, str) else frozenset(owner), tuple(no_impls_of))
+        if okey in self._inl:
+            return self._inl[okey]
+        ckey = ("callers", tuple(no_impls_of))
+        if ckey not in self._inl:
+            callers = defaultdict(set)
+            for p, qs in self.callgraph(no_impls_of).items():
+                for q in qs:
+                    callers[q].add(p)
+            self._inl[ckey] = callers
+        callers = self._inl[ckey]
         own = {owner} if isinstance(owner, str) else set(owner)
         changed = True
         while changed:
@@ -260,6 +274,7 @@ class Crate:
                 if cs and all(c in own for c in cs) and b.raw.get("vis", "") != "pub" and not b.raw.get("impl_trait"):
                     own.add(p)
                     changed = True
+        self._inl[okey] = own
         return own
 
     # ---- call graph
@@ -323,6 +338,14 @@ class Crate:
         return out
 
     def callgraph(self, no_impls_of=()):
+        key = ("cg", tuple(no_impls_of))
+        if key in self._inl:
+            return self._inl[key]
+        g = self._callgraph(no_impls_of)
+        self._inl[key] = g
+        return g
+
+    def _callgraph(self, no_impls_of=()):
         g = defaultdict(set)
         for body in self.bodies:
             for _, t in body.calls():
